@@ -207,6 +207,8 @@ def job(task):
             if has(o, "to_phylip"):
                 check("to_phylip", lambda: o.to_phylip(), S(a["phylip"]))
             tr = a["translation"]
+            if tr["ok"] and state[3] and len(state[2]) >= 4 and len(state[2]) % 3:
+                stats["translation_minus_strand_partial_codon"] += 1
             if tr["ok"]:
                 def outcome(thunk, proj):
                     try:
@@ -305,6 +307,8 @@ def stage_read(run, scratch, tier, totals, tm, warm=None, pre=None):
                 run.fail(key, detail, what=what)
                 for _ in range(min(n - 1, 100000)):
                     run.fail(key, {}, what=what)
+    if not agg["translation_minus_strand_partial_codon"]:
+        raise RuntimeError("vacuous: no reverse-complemented monomer view with an incomplete last codon was translated (check the roots of SeqViewRead)")
     for k, v in agg.items():
         totals[f"read_{k}"] += v
     totals["read_records"] += nrec
